@@ -2,7 +2,8 @@
 From PGF Require Import Base.Prelude Base.PyStr Model.ProteinGroups Proofs.ProteinGroupsProofs.
 
 (* the index invariant holds after ANY sequence of append / extend / merge / remove-empty /
-   re-index / add-unseen operations, from any initial collection *)
+   re-index / add-unseen operations and edits of the group list from outside that are followed by a re-index (OReplace),
+   from any initial collection *)
 Theorem C20_invariant_reachable : forall init ops, Inv (run_ops init ops).
 Proof. exact inv_reachable. Qed.
 Print Assumptions C20_invariant_reachable.
@@ -60,6 +61,15 @@ Theorem C20_unknown_groups : forall s p,
   Inv s -> valid s = true -> in_no_group s p -> get_protein_groups s [p] = Ok [].
 Proof. exact get_protein_groups_unknown. Qed.
 Print Assumptions C20_unknown_groups.
+
+(* a re-index forgets every protein that left the collection: after the group list was replaced from outside and re-indexed, a
+   protein in none of the new groups is reported missing WHATEVER the object held before (no entry of the old index survives) *)
+Theorem C20_reindex_forgets_departed : forall s gs p,
+  (forall g, In g gs -> ~ In p g) ->
+  get_protein_group_idxs (step s (OReplace gs)) [p] = Ok [(-1)%Z] /\
+  get_protein_groups (step s (OReplace gs)) [p] = Ok [].
+Proof. exact reindex_forgets_departed. Qed.
+Print Assumptions C20_reindex_forgets_departed.
 
 (* non-vacuity: a reachable valid state with a merge and a clean-up, an unknown protein (the D5 witness) *)
 Example C20_witness :
